@@ -5,6 +5,7 @@
 //   C06: pre/post relation around every note-on (idle channel first, held notes keep their channel)
 #include "player.hpp"
 #include "mcx_main.hpp"
+#include <regex>
 
 namespace {
 
@@ -140,13 +141,17 @@ struct RtModel : mcx::Model {
         } else {
             add(GEN, 0, 0, 0, 12, "generate(12ms)", "time"); add(GEN, 0, 0, 0, 40, "generate(40ms)", "time");
         }
-        if(g_prop == "C04") {
+        if(g_prop == "C04" || g_prop == "C03") {   // (C03: same real-time alphabet, oracle = memory safety and termination only)
             add(BEND, 0, 12000, 0, 0, "bend(0,12000)", "bend"); add(BEND, 0, 8192, 0, 0, "bend(0,8192)", "bend");
             add(CC, 0, 5, 40, 0, "cc(0,5,40)", "CC5"); add(CC, 0, 65, 127, 0, "cc(0,65,127)", "CC65-on"); add(CC, 0, 65, 0, 0, "cc(0,65,0)", "CC65-off");
             add(CC, 0, 1, 64, 0, "cc(0,1,64)", "CC1");
             add(ARP, 0, 0, 0, 0, "setAutoArpeggio(0)", "arpeggio"); add(ARP, 0, 1, 0, 0, "setAutoArpeggio(1)", "arpeggio");
             for(int m = -1; m <= 2; m++) { snprintf(nb, sizeof nb, "setChannelAllocMode(%d)", m); add(ALLOC, 0, m, 0, 0, nb, "allocMode"); }
         }
+        if(extra_fullchip) {   // the keys the "busy6same" start states hold, so that they can be released; a third note of the full chip's timbre
+            add(NOTEOFF, 0, 40, 0, 0, "noteOff(0,40)", "noteOff"); add(NOTEOFF, 0, 41, 0, 0, "noteOff(0,41)", "noteOff"); add(NOTEON, 0, 41, 100, 0, "noteOn(0,41,100)", "noteOn");
+        }
+        if(g_prop == "C03") { add(GEN, 0, 0, 0, 700, "generate(700ms)", "time"); add(GEN, 0, 0, 0, 5000, "generate(5s)", "time"); }
         if(with_config) {
             add(RELOADBANK, 0, 0, 0, 0, "openBankData(same)", "bankReload", true);
             add(NUMCHIPS, 0, 1, 0, 0, "setNumChips(1)", "setNumChips", true); add(NUMCHIPS, 0, 2, 0, 0, "setNumChips(2)", "setNumChips", true);
@@ -159,7 +164,12 @@ struct RtModel : mcx::Model {
             add(TICKSEQ, 0, 0, 0, 11, "tickEvents(11ms)", "seqTick", true);
             add(TICKSEQ, 0, 0, 0, 43, "tickEvents(43ms)", "seqTick", true);
         }
+        if(!only_ops.empty()) {   // focused alphabet: fewer operations, deeper histories
+            std::regex re(only_ops); std::vector<Op> keep; for(auto &o : ops) if(std::regex_search(o.name, re)) keep.push_back(o); ops.swap(keep);
+            fprintf(stderr, "[rt_voice] focused alphabet (%zu ops):", ops.size()); for(auto &o : ops) fprintf(stderr, " %s", o.name.c_str()); fprintf(stderr, "\n");
+        }
     }
+    std::string only_ops; bool extra_fullchip = false;
 
     size_t num_ops() const override { return ops.size(); }
     std::string op_name(size_t i) const override { return ops[i].name; }
@@ -202,7 +212,9 @@ struct RtModel : mcx::Model {
         }
         if(sn.find("busy6same") != std::string::npos) {
             // six key-down notes of one timbre on MIDI channel 0: one chip is full, a 7th note of another timbre must evict or (with arpeggio) evacuate
+            if(sn.find("pedal") != std::string::npos) opn2_rt_controllerChange(d, 0, 64, 127);
             for(int k = 40; k < 46; k++) opn2_rt_noteOn(d, 0, (OPN2_UInt8)k, 100);
+            if(sn.find("seventh") != std::string::npos) { opn2_rt_noteOn(d, 0, 60, 100); opn2_rt_noteOff(d, 0, 60); }
         }
         if(sn.find("busy5") != std::string::npos) {
             opn2_rt_controllerChange(d, 1, 64, 127);
@@ -468,8 +480,10 @@ int main(int argc, char **argv) {
     m.with_config = a.extra.count("config") && a.extra["config"] == "1";
     m.with_seq = a.extra.count("seq") && a.extra["seq"] == "1";
     if(a.extra.count("config-depth")) m.config_depth = atoi(a.extra["config-depth"].c_str());
+    if(a.extra.count("only-ops")) m.only_ops = a.extra["only-ops"];
     std::string st = a.extra.count("starts") ? a.extra["starts"] : "fresh";
     { std::string cur; for(char c : st + ",") { if(c == ',') { if(!cur.empty()) m.starts.push_back(cur); cur.clear(); } else cur.push_back(c); } }
+    for(auto &x : m.starts) if(x.find("busy6same") != std::string::npos) m.extra_fullchip = true;
     m.build_alphabet();
     return mcx::run_main(argc, argv, m, g_prop.c_str(), 4, 6);
 }
